@@ -92,7 +92,8 @@ def make_content(rng, kind, eff_enc, own_diff_enc=None):
         # the specification's reading decodes the (unindented) bytes in the section's encoding: for the BOM-aware
         # codecs a leading U+FEFF is the byte-order mark and is not part of the text
         exp_text = (bom + b''.join(body_lines)).decode(enc)
-        return body, opts, dict(text=exp_text), len(body_lines)
+        ast = dict(form='text', lines=lines, kind=nlkind, bom=with_bom)
+        return body, opts, dict(text=exp_text, _ast=ast), len(body_lines)
     if kind == 'meta':
         enc = eff_enc
         d = gc.gen_dict(rng)
@@ -111,7 +112,8 @@ def make_content(rng, kind, eff_enc, own_diff_enc=None):
         t += nl
         if declared is None and '\n' in t[:-1] and style != 'compact' and rng.random() < 0.2:
             pass
-        body = t.encode(enc) if rng.random() < 0.3 else spec.bomfree(t, enc)
+        with_bom = rng.random() < 0.3
+        body = t.encode(enc) if with_bom else spec.bomfree(t, enc)
         raw_nl = spec.bomfree(nl, enc)
         if rng.random() < 0.5:
             opts.append(('format', 'json'))
@@ -119,7 +121,35 @@ def make_content(rng, kind, eff_enc, own_diff_enc=None):
             opts.append(('line_endings', declared))
         # content lines: split on the newline the reader must use (declared, or detected from the first line)
         nbytes_nl = body.count(raw_nl)
-        return body, opts, dict(metadata=d), None
+        ast = dict(form='meta', lines=t.split(nl)[:-1], kind=nlkind, bom=with_bom, json=d)
+        return body, opts, dict(metadata=d, _ast=ast), None
+    if kind in ('rawpreamble', 'rawmeta'):
+        # no encoding in force ("DiffX files have no default encoding"): the content is bytes; its newline is the ASCII one
+        declared = rng.choice([None, 'unix', 'dos'])
+        nlkind = declared or rng.choice(['unix', 'dos'])
+        nl = b'\n' if nlkind == 'unix' else b'\r\n'
+        if kind == 'rawpreamble':
+            alphabet = [bytes([b]) for b in range(256) if b not in (10, 13)]
+            lines = [b''.join(rng.choice(alphabet) for _ in range(rng.randint(0, 12))) for _ in range(rng.randint(1, 4))]
+            indent = rng.choice([None, None, 0, 1, 2, 4])
+            if indent is not None:
+                opts.append(('indent', str(indent)))
+            exp = dict(text_hex=(b''.join(l + nl for l in lines)).hex())
+            form = 'rawtext'
+        else:
+            d = gc.gen_dict(rng)
+            t = json.dumps(d, indent=rng.choice([None, 2, 4]), sort_keys=True)
+            lines = [l.encode('ascii') for l in t.split('\n')]
+            indent = None
+            if rng.random() < 0.5:
+                opts.append(('format', 'json'))
+            exp = dict(metadata=d)
+            form = 'rawmeta'
+        body = b''.join(b' ' * (indent or 0) + l + nl for l in lines)
+        if declared:
+            opts.append(('line_endings', declared))
+        exp['_ast'] = dict(form=form, lines=[l.hex() for l in lines], kind=nlkind, json=exp.get('metadata'))
+        return body, opts, exp, len(lines)
     # diff
     enc = own_diff_enc
     declared = rng.choice([None, 'unix', 'dos'])
@@ -137,7 +167,7 @@ def make_content(rng, kind, eff_enc, own_diff_enc=None):
         opts.append(('line_endings', declared))
     if rng.random() < 0.4:
         opts.append(('type', rng.choice(['text', 'binary'])))
-    return d, opts, dict(diff_hex=d.hex()), None
+    return d, opts, dict(diff_hex=d.hex(), _ast=dict(form='diff', kind=nlkind)), None
 
 
 def count_lines(body, opts_dict, enc):
@@ -168,8 +198,10 @@ def gen_file(rng, extra_unknown=False):
         blank = [rng.choice(BLANKS) for _ in range(rng.choice([0, 0, 0, 1, 2]))] if secs else []
         if crlf:
             blank = [b.replace(b'\n', b'\r\n') if rng.random() < 0.5 else b for b in blank]
+        expect = dict(expect or {})
+        ast = expect.pop('_ast', None)
         secs.append(dict(id=sid, opts=[[k, v] for k, v in opts], blank=[b.hex() for b in blank],
-                         content=None if content is None else content.hex(), expect=expect or {}, enc=enc))
+                         content=None if content is None else content.hex(), expect=expect, enc=enc, ast=ast))
 
     def content_sec(sid, kind, level_eff):
         own = rng.choice([None, None, None] + CODECS)
@@ -194,24 +226,41 @@ def gen_file(rng, extra_unknown=False):
         pass
     def text_ok(level_eff):
         return level_eff is not None
-    if rng.random() < 0.5 and text_ok(eff[0]):
-        content_sec('.preamble', 'preamble', eff[0])
-    if rng.random() < 0.5 and text_ok(eff[0]):
-        content_sec('.meta', 'meta', eff[0])
+    def raw_sec(sid, kind):
+        body, opts, exp, _ = make_content(rng, kind, None)
+        add(sid, opts, body, exp, None)
+    if rng.random() < 0.5:
+        if text_ok(eff[0]):
+            content_sec('.preamble', 'preamble', eff[0])
+        else:
+            raw_sec('.preamble', 'rawpreamble')
+    if rng.random() < 0.5:
+        if text_ok(eff[0]):
+            content_sec('.meta', 'meta', eff[0])
+        else:
+            raw_sec('.meta', 'rawmeta')
     for _ in range(rng.randint(1, 3)):
         ce = rng.choice([None, None] + CODECS)
         add('.change', [('encoding', ce)] if ce else [])
         eff[1] = ce or eff[0]
-        if rng.random() < 0.5 and text_ok(eff[1]):
-            content_sec('..preamble', 'preamble', eff[1])
-        if rng.random() < 0.5 and text_ok(eff[1]):
-            content_sec('..meta', 'meta', eff[1])
+        if rng.random() < 0.5:
+            if text_ok(eff[1]):
+                content_sec('..preamble', 'preamble', eff[1])
+            else:
+                raw_sec('..preamble', 'rawpreamble')
+        if rng.random() < 0.5:
+            if text_ok(eff[1]):
+                content_sec('..meta', 'meta', eff[1])
+            else:
+                raw_sec('..meta', 'rawmeta')
         for _ in range(rng.randint(1, 3)):
             fe = rng.choice([None, None, None] + CODECS)
             add('..file', [('encoding', fe)] if fe else [])
             eff[2] = fe or eff[1]
             if text_ok(eff[2]):
                 content_sec('...meta', 'meta', eff[2])
+            elif rng.random() < 0.5:
+                raw_sec('...meta', 'rawmeta')
             else:
                 own = rng.choice(CODECS)
                 body, opts, exp, _ = make_content(rng, 'meta', own)
@@ -259,6 +308,8 @@ def expected(f):
         ex = dict(s['expect'])
         if 'diff_hex' in ex:
             ex['diff'] = bytes.fromhex(ex.pop('diff_hex'))
+        if 'text_hex' in ex:
+            ex['text'] = bytes.fromhex(ex.pop('text_hex'))
         recs.append(dict(section=s['id'], level=LEVEL[s['id']], line=start, options=od, nlines=n, **ex))
     return recs
 
@@ -365,5 +416,39 @@ def misaligned_file(rng):
         opts.append(('line_endings', declared))
     secs = [dict(id='diffx', opts=[['version', '1.0'], ['encoding', enc]], blank=[], content=None, expect={}, enc=None),
             dict(id='.preamble', opts=[[k, v] for k, v in opts], blank=[], content=body.hex(),
-                 expect=dict(text=nl.join(lines) + nl), enc=enc)]
+                 expect=dict(text=nl.join(lines) + nl), enc=enc,
+                 ast=dict(form='text', lines=lines, kind='unix', bom=False))]
     return dict(sections=secs, crlf=False, trailing=[])
+
+
+def to_ast(f):
+    """The file in the vocabulary of coq/theories/SpecReader.v (ffile), as wire text, from what the generator recorded
+    when it built the file: ids, options as written, blank lines, and per content section its lines / kind / BOM flag."""
+    from lib import H, T, L, Lst, Bool
+    import streamlib as sl
+    secs = []
+    for s in f['sections']:
+        a = s.get('ast')
+        if s['content'] is None:
+            c = 'none'
+        elif a is None:
+            return None
+        elif a['form'] == 'text':
+            c = L('text', Lst([T(l) for l in a['lines']]), a['kind'], Bool(a['bom']))
+        elif a['form'] == 'meta':
+            c = L('meta', Lst([T(l) for l in a['lines']]), a['kind'], Bool(a['bom']), sl.json_sx(a['json']))
+        elif a['form'] == 'rawtext':
+            c = L('rawtext', Lst([H(bytes.fromhex(l)) for l in a['lines']]), a['kind'])
+        elif a['form'] == 'rawmeta':
+            c = L('rawmeta', Lst([H(bytes.fromhex(l)) for l in a['lines']]), a['kind'], sl.json_sx(a['json']))
+        else:
+            c = L('diff', H(bytes.fromhex(s['content'])), a['kind'])
+        blanks = []
+        for b in s['blank']:
+            b = bytes.fromhex(b)
+            assert b.endswith(b'\n')
+            blanks.append(H(b[:-1]))
+        secs.append(L(H(s['id'].encode('ascii')), Lst([L(H(k.encode('ascii')), H(v.encode('ascii'))) for k, v in s['opts']]),
+                      Lst(blanks), c))
+    trailing = [H(bytes.fromhex(b)[:-1]) for b in f.get('trailing', [])]
+    return L(Bool(f['crlf']), Lst(secs), Lst(trailing))
